@@ -94,7 +94,26 @@ def api_stage(prop, family, tier, seed, groups=("fm", "rist"), scale=None, scale
         args = ["run", "--scen", path, "--group", g, "--seed", str(seed)]
         if scale:
             args += ["--scale", scale, "--scale-min", str(scale_min)]
-        out = json.loads(vlib.run_harness(args, timeout=3000, profile=profile))
+        # the code under test may take the whole process down (abort on a huge allocation, stack overflow, endless loop caught
+        # by the watchdog): that scenario is a violation, the rest is executed after it
+        prog = os.path.join(wd, f"progress_{g}")
+        skip = 0
+        out = {"executed": 0, "classes": {}, "mismatches": []}
+        for _attempt in range(8):
+            try:
+                part = json.loads(vlib.run_harness(args + ["--progress", prog, "--skip", str(skip)], timeout=3000, profile=profile, died_ok=True))
+                out["executed"] += part["executed"]
+                for k_, v_ in part["classes"].items():
+                    out["classes"][k_] = out["classes"].get(k_, 0) + v_
+                out["mismatches"] += part["mismatches"]
+                break
+            except vlib.HarnessDied as e:
+                idx = int(open(prog).read().strip()) if os.path.exists(prog) else skip
+                what = "did not return (watchdog)" if e.rc == 3 else f"took the process down (exit status {e.rc})"
+                out["mismatches"].append({"index": idx, "group": g, "seed": seed, "scale": scale, "scenario": scen[idx] if idx < len(scen) else {"sc": {"members": []}, "expect": {}},
+                                          "message": f"panic: the call {what}: {e.stderr.strip()[-200:]}"})
+                out["executed"] += idx - skip + 1
+                skip = idx + 1
         st.evaluations += out["executed"]
         st.traces += out["executed"]
         st.notes["outcome_classes"][g] = out["classes"]
